@@ -9,7 +9,12 @@ def parseOp (t : String) : Option Op :=
   | ["pr", n] => n.toNat?.map .process
   | ["sv", n, m] =>
     match n.toNat? with
-    | some pid => if m = "m" then some (.save pid (hOf pid) pid) else if m = "x" then some (.save pid (hOf pid) 999999) else none
+    | some pid =>
+      if m = "m" then some (.save pid (hOf pid) pid)
+      else if m = "x" then some (.save pid (hOf pid) 999999)
+      else if m = "n" then some (.save pid (hOf pid) 888888)        -- a majority without a new block hash matches nothing
+      else if m = "c" then some (.saveCanceled pid (hOf pid) pid)
+      else none
     | none => none
   | ["cn"] => some .cancel
   | _ => none
